@@ -17,6 +17,19 @@ def main(argv=None):
         seed = int(os.environ.get('VERIF_SEED', '0') or 0)
         prop = a.prop.upper()
         ctx = Ctx(prop, a.tier, seed)
+        # watchdog: a changed tree can make the code under test spin in places no inner guard covers; a check that does not
+        # finish is a checker fault (exit 3), never a verdict
+        import threading, signal
+        limit = int(os.environ.get('VERIF_CHECK_TIMEOUT', '2400' if a.tier == 'quick' else '14400'))
+        def _expire():
+            sys.stdout.write(f'CHECKER-FAULT check {prop} did not finish within {limit} s (watchdog); no verdict\n'); sys.stdout.flush()
+            try:
+                import multiprocessing as mp
+                for ch in mp.active_children():
+                    try: ch.kill()
+                    except Exception: pass
+            finally: os._exit(3)
+        wd = threading.Timer(limit, _expire); wd.daemon = True; wd.start()
         try:
             source.check_repo_imported_from_worktree()
             mod = importlib.import_module(f'checks.{prop.lower()}')
